@@ -231,6 +231,11 @@ def run_case(ctx, k, rng):
                         b = b * float(rng.choice([0.01, 0.1])) * cur / U        # narrow spread of births (a few pixels or less)
                     b = b * U + FRAME["off_b"]
                     pers = rng.uniform(0.05 * cur, 60 * cur, n) if (rng.random() < 0.6 or U != 1.0) else np.round(rng.uniform(0.1, max(30 * cur, 0.2), n), 1) + 0.1
+                    if rng.random() < 0.12:
+                        # pairs below the diagonal (extended / superlevel-set persistence, the opposite filtration convention): "every
+                        # fitted point" includes them
+                        pers = pers * np.where(rng.random(n) < 0.4, -1.0, 1.0)
+                        ctx.note("fits with pairs below the diagonal")
                     dg.append(np.column_stack([b, b + pers]))
                 allp = np.vstack(dg)
                 bp = np.column_stack([allp[:, 0], allp[:, 1] - allp[:, 0]])
